@@ -34,6 +34,7 @@ type Sym struct {
 	Base   *Sym            // for struct: the value it was copied from (nil = zero value)
 	T      types.Type
 	NonNil bool // known never to be nil (a sentinel error variable)
+	Fn     *ssa.Function // for a function constant: the function
 }
 
 func (s *Sym) String() string {
@@ -380,10 +381,22 @@ func (d *dtree) exec(st *dstate, in ssa.Instruction, b *ssa.BasicBlock) bool {
 	case *ssa.Send:
 		st.calls = append(st.calls, fmt.Sprintf("send %s<-%s", d.eval(st, x.Chan), d.eval(st, x.X)))
 	case *ssa.Call:
-		if cal := x.Call.StaticCallee(); cal != nil && len(cal.Blocks) > 0 && len(st.stack) < 3 && len(cal.Params) == len(x.Call.Args) {
+		cal := x.Call.StaticCallee()
+		literal := false
+		if cal == nil && !x.Call.IsInvoke() {
+			// a capture-free function literal that reached this call as a value (a predicate handed to a helper that
+			// is being interpreted in place): on this path the call runs that literal
+			if sy := d.eval(st, x.Call.Value); sy != nil && sy.Fn != nil && sy.Fn.Parent() != nil && len(sy.Fn.FreeVars) == 0 {
+				cal, literal = sy.Fn, true
+			}
+		}
+		if cal != nil && len(cal.Blocks) > 0 && len(st.stack) < 3 && len(cal.Params) == len(x.Call.Args) {
 			inline := d.cfg.Inline
 			if inline == nil {
 				inline = InlineNewHelpers
+			}
+			if literal {
+				inline = func(_, _ *ssa.Function) bool { return true }
 			}
 			onStack := cal == d.fn
 			for _, fr := range st.stack {
@@ -664,7 +677,7 @@ func (d *dtree) eval(st *dstate, v ssa.Value) *Sym {
 	case *ssa.Global:
 		return &Sym{K: "ptr", S: "&" + x.Pkg.Pkg.Name() + "." + x.Name()}
 	case *ssa.Function:
-		return &Sym{K: "const", S: "func " + FuncName(x)}
+		return &Sym{K: "const", S: "func " + FuncName(x), Fn: x}
 	case *ssa.Builtin:
 		return &Sym{K: "const", S: "builtin " + x.Name()}
 	case *ssa.Parameter:
@@ -698,7 +711,12 @@ func (d *dtree) callRec(st *dstate, cc *ssa.CallCommon) (string, CallRec) {
 		case *ssa.MakeClosure:
 			callee = FuncName(f.Fn.(*ssa.Function))
 		default:
-			callee = d.eval(st, cc.Value).S
+			sy := d.eval(st, cc.Value)
+			callee = sy.S
+			if sy.Fn != nil {
+				// a function kept in a variable (`single = ExecuteOne` … `single(ctx, members)`): on this path it is that function
+				callee = ModRel(FuncQName(sy.Fn))
+			}
 		}
 	}
 	rec.Callee = callee
